@@ -101,6 +101,9 @@ def check_process(ctx, case):
         jobs.append((("assemble", "repeat", 0), "assemble", base + ["--targets", paths["bed"], "--cores", case["cores"][-1]]))
         jobs.append((("assemble", "perm", 0), "assemble", base + ["--targets", bed_perm, "--cores", case["cores"][-1]]))
         jobs.append((("assemble", "subset", 0), "assemble", base + ["--targets", bed_sub, "--cores", 1]))
+        # a single target with several cores (fewer loci than workers)
+        bed_one = write_bed(os.path.join(wd, "one.bed"), [spec["loci"][case["subset"][0]]])
+        jobs.append((("assemble", "single_target", case["cores"][-1]), "assemble", base + ["--targets", bed_one, "--cores", case["cores"][-1]]))
         # fault: alignments of one locus contradict the variant reference
         fl = spec["loci"][fault_pos]
         fsnvs = D.locus_snvs(spec, fl)
@@ -164,6 +167,8 @@ def check_process(ctx, case):
                 problems.append(Problem("assemble:header_differs", "%s header differs from the single core header beyond date/command line" % (key,)))
                 return problems
             expect = ref_recs if kind != "subset" else [by_locus[spec["loci"][i]["name"]][0] for i in case["subset"]]
+            if kind == "single_target":
+                expect = [by_locus[spec["loci"][case["subset"][0]]["name"]][0]]
             if sorted(recs) != sorted(expect):
                 bad = sorted(set(recs) ^ set(expect))[:2]
                 problems.append(Problem("assemble:records_differ:" + kind, "%s: record lines differ from the single-core run (same inputs and seed); first differing lines: %s" % (key, [b[:300] for b in bad])))
